@@ -47,6 +47,20 @@ def decide(eng: Engine, harness, post, inputs, r: ObResult, describe=None, max_c
     inputs: dict name -> term (for witnesses).
     Fills r (paths, queries, cex, samples, reach_ok) and returns r."""
     t0 = time.time()
+    user_harness, user_post = harness, post
+
+    def harness(e):
+        try:
+            return user_harness(e)
+        except ModelRaise as ex:
+            # an exception of the interpreted code that the harness did not expect: a failing outcome, not a harness error
+            return {"__uncaught__": "%s%s" % (ex.name, str(ex.eargs)[:80])}
+
+    def post(o):
+        if isinstance(o, dict) and "__uncaught__" in o:
+            return False
+        return user_post(o)
+
     try:
         results = eng.explore(harness)
     except Inconclusive as e:
@@ -107,7 +121,8 @@ def decide(eng: Engine, harness, post, inputs, r: ObResult, describe=None, max_c
             if m2 is not None:
                 r.samples.append({"path_decisions": "".join("T" if d else "F" for d in dec)[:80],
                                   "example_input": {k: model_value(m2, v) for k, v in inputs.items()},
-                                  "outcome": describe(obs) if describe else _short(obs)})
+                                  "outcome": (describe(obs) if describe and not (isinstance(obs, dict) and "__uncaught__" in obs)
+                                              else _short(obs))})
     r.reach_ok = reach
     _fill(eng, r, t0)
     if bad:
